@@ -11,7 +11,7 @@ I = z3.Int
 BOUNDS = {"quick": dict(K=4), "thorough": dict(K=6)}
 
 
-def harness(L, sw, ch, sr, K, mode, with_mr=False):
+def harness(L, sw, ch, sr, K, mode, with_mr=False, overlap=False):
     bps = sw * ch
     core = L.modules["core"]
     iom = L.modules["io"]
@@ -34,8 +34,15 @@ def harness(L, sw, ch, sr, K, mode, with_mr=False):
 
     def path(e):
         D, data, n, B, P, calls, validator = c05.split_setup(e, core, bps, sr, K)
-        meta = dict(sw=sw, ch=ch, sr=sr, K=K, mode=mode, via="source", kind="split", with_mr=with_mr)
+        meta = dict(sw=sw, ch=ch, sr=sr, K=K, mode=mode, via="source", kind="split", with_mr=with_mr, overlap=overlap)
         src = Counting(data, sr, sw, ch)
+        H = B
+        inp = src
+        if overlap:
+            # split() over an AudioReader with overlapping windows: window k needs the samples up to k*H + B and no more
+            H = I("H")
+            e.assume(z3.And(H >= 1, H < B, n <= B + (K - 1) * H))
+            inp = L.modules["util"].AudioReader(src, block_dur=SymRat(B, sr), hop_dur=SymRat(H, sr))
         conds = {}
         extra = {}
         vis = n
@@ -45,7 +52,7 @@ def harness(L, sw, ch, sr, K, mode, with_mr=False):
             extra["max_read"] = mr
             vis = z3.If(M < n, M, n)
         try:
-            gen = core.split(src, min_dur=1, max_dur=1, max_silence=1, drop_trailing_silence=bool(mode & 4), strict_min_dur=bool(mode & 2),
+            gen = core.split(inp, min_dur=1, max_dur=1, max_silence=1, drop_trailing_silence=bool(mode & 4), strict_min_dur=bool(mode & 2),
                              analysis_window=c05.split_setup.aw, validator=validator, **extra)
             conds[("nothing read before the first next()", 0)] = src.calls == 0
             i = 0
@@ -54,6 +61,12 @@ def harness(L, sw, ch, sr, K, mode, with_mr=False):
                     r = next(gen)
                 except StopIteration:
                     break
+                nfr = len(calls)
+                conds[("the reader is not ahead of the window it returned", i)] = z3.Or(
+                    src.handed >= vis, src.handed <= ((nfr - 1) * H + B if nfr else 0))
+                if overlap:
+                    i += 1
+                    continue
                 st = SymRat.of(r.start)
                 ln = r.data.length()
                 # region covers windows s .. en where en is the window holding its last sample
@@ -88,6 +101,8 @@ def harness(L, sw, ch, sr, K, mode, with_mr=False):
             c = c05.mk(m, D, B, P, calls, meta)
             if Mq is not None:
                 c["Mq"] = byt.iv(m, Mq)
+            if overlap:
+                c["H"] = byt.iv(m, H)
             return c
         return tok.discharge(e, conds, mkc)
     return path
@@ -137,12 +152,24 @@ def replay_fn(c):
         extra["max_read"] = mrc[0]
         vis = min(n, mrc[1])
         desc += ", max_read=%r (%d samples)" % mrc
+    inp = src
+    H = c.get("H", B)
+    if c.get("overlap"):
+        if int((H / sr) * sr) != H or int((B / sr) * sr) != B:
+            return []
+        inp = ak.AudioReader(src, block_dur=B / sr, hop_dur=H / sr)
+        desc += ", overlapping reader hop=%d" % H
     try:
-        gen = ak.split(src, min_dur=1, max_dur=1, max_silence=1, drop_trailing_silence=bool(c["mode"] & 4), strict_min_dur=bool(c["mode"] & 2),
+        gen = ak.split(inp, min_dur=1, max_dur=1, max_silence=1, drop_trailing_silence=bool(c["mode"] & 4), strict_min_dur=bool(c["mode"] & 2),
                        analysis_window=c.get("Bq", 4 * B) / (4 * sr), validator=validator, **extra)
         if src.calls:
             return [("C08: split() reads its input before the first next()", desc + ": %d reads" % src.calls)]
         for r in gen:
+            nfr = len(calls)
+            if not (src.handed >= vis or src.handed <= ((nfr - 1) * H + B if nfr else 0)):
+                return [("C08: the reader pulls input ahead of the window it returns", desc + ": %d windows handed to the tokenizer, %d samples pulled" % (nfr, src.handed))]
+            if c.get("overlap"):
+                continue
             s = round(r.start * sr / B)
             en = -(-(s * B + len(r.data) // bps) // B) - 1
             if src.handed > vis:
@@ -167,6 +194,7 @@ def replay(c):
 
 
 def run(rep):
+    tok.VALIDATE[0] = replay_fn
     b = BOUNDS[rep.tier]
     L = loader.load()
     K = b["K"]
@@ -174,6 +202,11 @@ def run(rep):
     for mode in tok.MODES:
         hn = "split-online[K=%d,mode=%d]" % (K, mode)
         ex = explore(harness(L, 2, 1, 10, K, mode))
+        rep.add_exploration(hn, ex)
+        tok.handle_cex(rep, hn, ex, replay_fn, ideal=True)
+    for mode in ((0,) if rep.tier == "quick" else (0, 6)):
+        hn = "split-online[K=%d,mode=%d,overlapping reader]" % (K - 1, mode)
+        ex = explore(harness(L, 2, 1, 10, K - 1, mode, overlap=True))
         rep.add_exploration(hn, ex)
         tok.handle_cex(rep, hn, ex, replay_fn, ideal=True)
     for mode in ((0,) if rep.tier == "quick" else (0, 6)):
